@@ -300,6 +300,9 @@ def stmt_of( src, node ):
 
 _PAT_CACHE = {}
 
+_MIRROR = { ast.Lt: ast.Gt, ast.Gt: ast.Lt, ast.LtE: ast.GtE, ast.GtE: ast.LtE, ast.Eq: ast.Eq, ast.NotEq: ast.NotEq, ast.Is: ast.Is, ast.IsNot: ast.IsNot }
+
+
 class Binds( dict ):
     """bindings of a successful match: always truthy, even when empty"""
     def __bool__( self ):
@@ -331,6 +334,19 @@ def _pm( n, p, b ):
         b[p.id] = n
         return True
     if type( n ) is not type( p ):
+        return False
+    if isinstance( p, ast.Compare ) and len( p.ops ) == 1 and len( n.ops ) == 1:
+        # a single comparison also matches its mirror image ( a < b  ==  b > a, a == b  ==  b == a, a is None  ==  None is a ): the
+        # orientation of a comparison carries no meaning
+        b1 = Binds( b )
+        if _pm( n.left, p.left, b1 ) and type( n.ops[0] ) is type( p.ops[0] ) and _pm( n.comparators[0], p.comparators[0], b1 ):
+            b.update( b1 )
+            return True
+        if _MIRROR.get( type( n.ops[0] )) is type( p.ops[0] ):
+            b2 = Binds( b )
+            if _pm( n.comparators[0], p.left, b2 ) and _pm( n.left, p.comparators[0], b2 ):
+                b.update( b2 )
+                return True
         return False
     if isinstance( p, ast.AST ):
         for f in p._fields:
